@@ -113,12 +113,22 @@ def main(argv=None):
     ap.add_argument("--replay")
     ap.add_argument("-v", "--verbose", action="store_true")
     ap.add_argument("--update-ledger", action="store_true", help="record the unit source hashes of a green run")
+    ap.add_argument("--selftest", action="store_true", help="CPython cross-check of the symbolic executor on every concretisable path")
     a = ap.parse_args(argv)
     seed = int(os.environ.get("VERIF_SEED", "0"))
     sys.path.insert(0, ROOT)
     from . import report
     try:
         _import_repo()
+        if a.selftest:
+            from . import selftest
+            st = selftest.run(a.prop.upper())
+            print(f"SELFTEST property={a.prop.upper()} paths={st['paths']} agree={st['agree']} disagree={len(st['disagree'])} "
+                  f"skipped: abstract-inputs={st['skipped_abstract']} uninterpreted-functions={st['skipped_uninterpreted']} "
+                  f"contract-calls={st['skipped_contract_calls']} no-model={st['no_model']}")
+            for dsg in st["disagree"][:10]:
+                print("  DISAGREE", dsg)
+            return EXIT_CHECKER if st["disagree"] else 0
         return report.run_property(a.prop.upper(), a.tier, seed, a)
     except SystemExit:
         raise
